@@ -9,41 +9,6 @@ namespace PrologVerif.Refine
 open PrologVerif PrologVerif.VM PrologVerif.DecompileCompile PrologVerif.Activation
   PrologVerif.RefineITree PrologVerif.RefineRobinson
 
-/-! ### pointwise relation of two lists -/
-
-inductive Forall2 {α β : Type} (R : α → β → Prop) : List α → List β → Prop
-  | nil : Forall2 R [] []
-  | cons {a : α} {b : β} {as : List α} {bs : List β} : R a b → Forall2 R as bs → Forall2 R (a :: as) (b :: bs)
-
-theorem Forall2.length_eq {α β : Type} {R : α → β → Prop} {as : List α} {bs : List β} (h : Forall2 R as bs) :
-    as.length = bs.length := by
-  induction h with
-  | nil => rfl
-  | cons _ _ ih => simp [ih]
-
-theorem Forall2.append {α β : Type} {R : α → β → Prop} {as as' : List α} {bs bs' : List β}
-    (h : Forall2 R as bs) (h' : Forall2 R as' bs') : Forall2 R (as ++ as') (bs ++ bs') := by
-  induction h with
-  | nil => exact h'
-  | cons hd _ ih => exact .cons hd ih
-
-theorem Forall2.imp_mem {α β : Type} {R S : α → β → Prop} {as : List α} {bs : List β} (h : Forall2 R as bs)
-    (hRS : ∀ a ∈ as, ∀ b, R a b → S a b) : Forall2 S as bs := by
-  induction h with
-  | nil => exact .nil
-  | cons hd _ ih => exact .cons (hRS _ (by simp) _ hd) (ih (fun a ha => hRS a (by simp [ha])))
-
-theorem Forall2.imp {α β : Type} {R S : α → β → Prop} {as : List α} {bs : List β} (h : Forall2 R as bs)
-    (hRS : ∀ a b, R a b → S a b) : Forall2 S as bs := by
-  induction h with
-  | nil => exact .nil
-  | cons hd _ ih => exact .cons (hRS _ _ hd) ih
-
-theorem forall2_maps {α β γ : Type} {R : β → γ → Prop} (f : α → β) (g : α → γ) :
-    ∀ l : List α, (∀ a ∈ l, R (f a) (g a)) → Forall2 R (l.map f) (l.map g)
-  | [], _ => .nil
-  | a :: l, h => .cons (h a (by simp)) (forall2_maps f g l (fun a' ha' => h a' (by simp [ha'])))
-
 /-! ### shapes -/
 
 theorem hasVar_argList {g a : Term} {v : Nat} (ha : a ∈ argList g) (hv : a.hasVar v = true) :
